@@ -240,6 +240,30 @@ def gDhSharedOp (ts : Array String) : String :=
   | some g, some x, some y => gresStr xhex (Gen.dh.DHType.GetSharedKey g (beNat x) (beNat y))
   | _, _, _ => "bad-args"
 
+/-! ### the AES-CBC object of package encr (`NewCrypto`, `Encrypt`, `Decrypt`) and `lib.PKCS7Padding` -/
+
+/-- the cipher object `EncrAesCbc{keyLength: len(key)}.NewCrypto(key)` of the generated code -/
+def gNewCrypto (key : Bytes) : Res Gen.encr.EncrAesCbcCrypto :=
+  Gen.encr.EncrAesCbc.NewCrypto { keyLength := (key.length : Int) } key
+
+/-- `cbc-encrypt x<key> x<rnd stream> <failAt | -1> x<plaintext>` -/
+def gCbcEncryptOp (ts : Array String) : String :=
+  match (ts[1]?).bind parseX, (ts[2]?).bind parseX, ts[3]?, (ts[4]?).bind parseX with
+  | some key, some rnd, some fa, some pt =>
+    if key.length = 16 ∨ key.length = 24 ∨ key.length = 32 then
+      match gNewCrypto key with
+      | .ok c => gresStr xhex ((Gen.encr.EncrAesCbcCrypto.Encrypt Prims.real { buf := rnd, failAt := fa.toNat? } c pt).map (·.2))
+      | .err => "err"
+      | .fault => "panic"
+    else "unsupported"
+  | _, _, _, _ => "bad-args"
+
+/-- `cbc-decrypt x<key> x<ciphertext>` -/
+def gCbcDecryptOp (ts : Array String) : String :=
+  match (ts[1]?).bind parseX, (ts[2]?).bind parseX with
+  | some k, some ct => gresStr xhex (Gen.encr.EncrAesCbcCrypto.Decrypt Prims.real { Block := k } ct)
+  | _, _ => "bad-args"
+
 def gDecEapOp (name : String) (b : Bytes) : Option String :=
   if name == "eap" then some (gresStr (fun e => (sxEap e).toStr) ((Gen.eap.EAP.Unmarshal {} b).map GenAbs.absEap))
   else if name == "eapm-ID" then
@@ -298,6 +322,8 @@ def gHandle (line : String) : String :=
     else if op == "akaprf" then gAkaPrfOp ts
     else if op == "prfplus" then gPrfPlusOp ts
     else if op == "dectr" then gDectrOp ts
+    else if op == "cbc-encrypt" then gCbcEncryptOp ts
+    else if op == "cbc-decrypt" then gCbcDecryptOp ts
     else if op == "dhpub" then gDhPubOp ts
     else if op == "dhshared" then gDhSharedOp ts
     else if op == "reenc" then
